@@ -188,7 +188,12 @@ func HarnessC06InPlace() {
 	vfsReset()
 	x := string([]byte{vByte("x")})
 	var layout, page, want string
-	switch vChoice("shape", 5) {
+	switch vChoice("shape", 6) {
+	case 5: // layout and component names that contain a dot
+		vfsWriteFile("templates/components/card.v2.tw", "<{{ t }}>")
+		vfsWriteFile("templates/layouts/site.min.tw", "M[@reserve(\"r\")]")
+		page = "@use(\"~site.min\")@insert(\"r\")@component(\"~card.v2\", {t: x})@component(\"components/card.v2\", {t: \"y\"})@end"
+		want = "M[<" + x + "><y>]"
 	case 3: // a component used inside the insert body
 		vfsWriteFile("templates/components/card.tw", "<{{ t }}>")
 		layout = "[@reserve(\"r\")]"
